@@ -254,11 +254,19 @@ class SArr:
     def dot(self, o):
         return dot(self, o)
 
+    def __matmul__(self, o):
+        return dot(self, o)
+
+    def __rmatmul__(self, o):
+        return dot(o, self)
+
     def sum(self, axis=None):
         return sum_(self, axis)
 
-    def astype(self, t):
-        return self
+    dtype = 'float64'          # values only: the model carries no dtypes
+
+    def astype(self, t, **kw):
+        return self if kw.get('copy') is False else SArr(self.shape, list(self.flat))
 
     def clip(self, lo, hi):
         return clip(self, lo, hi)
@@ -658,7 +666,57 @@ def allclose(a, b, rtol=1e-5, atol=1e-8):
     return T.And(*conds)
 
 
+def solve(a, b):
+    """numpy.linalg.solve(A, b) = inv(A).b (obligation det(A) != 0 through inv)"""
+    return dot(inv(a), asarray(b))
+
+
+def isclose(a, b, rtol=1e-5, atol=1e-8):
+    """scalar numpy.isclose: |a-b| <= atol + rtol*|b| (arrays: use allclose)"""
+    if isinstance(a, SArr) or isinstance(b, SArr):
+        raise OutsideSubset('isclose on arrays')
+    return allclose(a, b, rtol=rtol, atol=atol)
+
+
+def _any(x):
+    x = asarray(x)
+    vs = x.flat if isinstance(x, SArr) else [x]
+    return T.Or(*vs) if any(not isinstance(v, bool) for v in vs) else any(vs)
+
+
+def _all(x):
+    x = asarray(x)
+    vs = x.flat if isinstance(x, SArr) else [x]
+    return T.And(*vs) if any(not isinstance(v, bool) for v in vs) else all(vs)
+
+
+def trace(m):
+    m = asarray(m)
+    if len(m.shape) != 2:
+        raise OutsideSubset('trace of a %d-d array' % len(m.shape))
+    t = 0
+    for i in range(min(m.shape)):
+        t = t + m[i, i]
+    return t
+
+
+def outer(a, b):
+    a, b = asarray(a), asarray(b)
+    return SArr((len(a.flat), len(b.flat)), [_norm(x * y) for x in a.flat for y in b.flat])
+
+
+def diag(v):
+    v = asarray(v)
+    if len(v.shape) == 1:
+        k = v.shape[0]
+        return SArr((k, k), [v.flat[i] if i == j else 0 for i in range(k) for j in range(k)])
+    if len(v.shape) == 2:
+        return SArr((min(v.shape),), [v[i, i] for i in range(min(v.shape))])
+    raise OutsideSubset('diag')
+
+
 class _Linalg:
+    solve = staticmethod(solve)
     inv = staticmethod(inv)
     det = staticmethod(det)
     norm = staticmethod(norm)
@@ -674,8 +732,77 @@ class _Random:
         raise OutsideSubset('n.random.rand')
 
 
+def _radians(x):
+    if isinstance(x, (R, I)):
+        return x * T.pi() / 180
+    import math
+    return math.radians(x)
+
+
+def _binary(op):
+    def g(a, b):
+        if isinstance(a, (list, tuple)):
+            a = array(a)
+        if isinstance(b, (list, tuple)):
+            b = array(b)
+        return op(a, b)
+    return g
+
+
+def _ndim(x):
+    if isinstance(x, SArr):
+        return len(x.shape)
+    if isinstance(x, (list, tuple)):
+        return len(array(x).shape)
+    return 0
+
+
+def _shape(x):
+    if isinstance(x, SArr):
+        return tuple(x.shape)
+    if isinstance(x, (list, tuple)):
+        return tuple(array(x).shape)
+    return ()
+
+
+def _full_like(x, v, dtype=None):
+    """values only: the model carries no dtypes (an integer-typed template would truncate v in numpy -- argument
+    kinds are the business of the native checks)"""
+    if isinstance(x, (list, tuple)):
+        x = array(x)
+    if isinstance(x, SArr):
+        return SArr(x.shape, [v for _ in x.flat])
+    return v
+
+
 class NumpyModel:
     """stands in for the module object `n` / `np` inside the extracted functions"""
+    isclose = staticmethod(isclose)
+    any = staticmethod(_any)
+    all = staticmethod(_all)
+    trace = staticmethod(trace)
+    outer = staticmethod(outer)
+    diag = staticmethod(diag)
+    identity = staticmethod(lambda k: eye(k))
+    multiply = staticmethod(_binary(lambda a, b: a * b))
+    add = staticmethod(_binary(lambda a, b: a + b))
+    subtract = staticmethod(_binary(lambda a, b: a - b))
+    divide = staticmethod(_binary(lambda a, b: a / b))
+    true_divide = staticmethod(_binary(lambda a, b: a / b))
+    negative = staticmethod(_ufunc(lambda v: -v))
+    square = staticmethod(_ufunc(lambda v: v * v))
+    radians = staticmethod(_ufunc(_radians))
+    deg2rad = staticmethod(_ufunc(_radians))
+    rad2deg = staticmethod(_ufunc(T.degrees))
+    absolute = staticmethod(_ufunc(abs))
+    fabs = staticmethod(_ufunc(abs))
+    ndim = staticmethod(_ndim)
+    shape = staticmethod(_shape)
+    full_like = staticmethod(_full_like)
+    zeros_like = staticmethod(lambda x, dtype=None: _full_like(x, 0))
+    ones_like = staticmethod(lambda x, dtype=None: _full_like(x, 1))
+    isscalar = staticmethod(lambda x: not isinstance(x, (SArr, list, tuple)))
+    float64 = staticmethod(lambda x: x)
     pi = property(lambda self: T.pi())
     linalg = _Linalg()
     random = _Random()
@@ -694,6 +821,7 @@ class NumpyModel:
     minimum = staticmethod(minimum)
     round = staticmethod(round_)
     around = staticmethod(round_)
+    rint = staticmethod(round_)
     maximum = staticmethod(maximum)
     max = staticmethod(max_)
     mod = staticmethod(mod)
